@@ -12,7 +12,7 @@
 From Coq Require Import ZArith List Bool.
 From NV Require Import Base.Result Base.Bytes Model.TlvMem Model.T2T Model.T1T Model.IsoDep Model.T3T Model.T4T
   Model.TagAct Model.TagReadAny Model.TagReadAnyB
-  Proofs.IsoDepStream Proofs.TagSafeAct Proofs.TagSafeTlv Proofs.TagSafeBlk Proofs.TagSafeDep.
+  Proofs.IsoDepStream Proofs.TagSafeAct Proofs.TagSafeTlv Proofs.TagSafeCmd Proofs.TagSafeBlk Proofs.TagSafeDep.
 Import ListNotations.
 Open Scope Z_scope.
 
@@ -37,6 +37,16 @@ Print Assumptions C08_t2_read_d_same.
 Theorem C08_t2_demand_le : forall em, bytes_ok em -> snd (t2_read_d em) <= Z.max (len em + 1) 14.
 Proof. exact t2_demand_le. Qed.
 Print Assumptions C08_t2_demand_le.
+(* command bound in terms of the data area (b14 = size byte of the capability container, data area = 8 * b14 bytes):
+   the demand is at most t2_demand_bound, i.e. one READ per 16 bytes of it, two SECTOR SELECT packets per KiB and three
+   tries for the command that is not answered - at most 17856 commands for the largest data area; when the tag does
+   not even deliver byte 14, C08_t2_demand_le gives a demand of at most 15 bytes (one READ, tried three times) *)
+Theorem C08_t2_read_cmds : forall em b14, bytes_ok em -> rd em 14 = Ok b14 ->
+  snd (t2_read_d em) <= t2_demand_bound (b14 * 8 + 16) /\
+  t2_cmds_max (snd (t2_read_d em)) <= t2_cmds_max (t2_demand_bound (b14 * 8 + 16)) /\
+  t2_cmds_max (t2_demand_bound (b14 * 8 + 16)) <= 17856.
+Proof. intros em b14 Hb E. split; [apply t2_read_demand_bound; assumption | apply t2_read_cmds; assumption]. Qed.
+Print Assumptions C08_t2_read_cmds.
 (* the repair is conservative: where the NDEF TLV fits, the reader of C01-C03 (Model/T2T.v) is unchanged *)
 Theorem C08_t2_conservative : forall em L, t2_read em = Ok (Some L) -> tlv_fits em L = true -> t2_read_any em = t2_read em.
 Proof. exact t2_read_any_conservative. Qed.
